@@ -100,15 +100,13 @@ theorem Path.orb {ds : DSetData} {a b n k x k' x' : Nat} (p : Path ds (a + b) n 
       · exact Orb2.stepJ (Orb2.refl x)
     exact step.trans (ih hk2)
 
-/-- **`opposite`**: from the mirror end `(b, e)` of the (a,b)-orbit of `e`, starting with index
-    `a`, `opposite` returns the other mirror end `(k', e')` of that orbit — a different one — and
-    from there it returns `(b, e)` -/
-theorem opposite_spec {y : DSymData} (hv : ValidSet y.dset) (rep : Rep) {a b : Nat}
+/-- the alternating walk from the mirror end `(b, e)`, starting with index `a`, is a path of
+    `n < size` non-mirror steps to a mirror end `(k', e')` different from `(b, e)` -/
+theorem chain_path {y : DSymData} (hv : ValidSet y.dset) {a b : Nat}
     (ha : a ≤ y.dim) (hb : b ≤ y.dim) (hab : a ≠ b) {e : Nat} (he : 1 ≤ e ∧ e ≤ y.size)
     (hloop : y.dset.opU b e = e) :
-    ∃ k' e', opposite ⟨y, rep⟩ a b e = .ok (k', e') ∧ (k' = a ∨ k' = b) ∧ (1 ≤ e' ∧ e' ≤ y.size) ∧
-      y.dset.opU k' e' = e' ∧ Orb2 y.dset a b e e' ∧ (k', e') ≠ (b, e) ∧
-      opposite ⟨y, rep⟩ (a + b - k') k' e' = .ok (b, e) := by
+    ∃ n k' e', n + 1 ≤ y.size ∧ Path y.dset (a + b) n a e k' e' ∧ (k' = a ∨ k' = b) ∧
+      (1 ≤ e' ∧ e' ≤ y.size) ∧ y.dset.opU k' e' = e' ∧ (k', e') ≠ (b, e) := by
   obtain ⟨r, hr1, hr2, _, _, hper0, hmin0⟩ := hv.r_generic ha hb he.1 he.2
   have hA := opT_invol hv ha
   have hB := opT_invol hv hb
@@ -166,36 +164,48 @@ theorem opposite_spec {y : DSymData} (hv : ValidSet y.dset) (rep : Rep) {a b : N
     · rw [if_pos hn2] at this ⊢; rw [← opT_in hw.1 hw.2]; exact this
     · rw [if_neg hn2] at this ⊢; rw [← opT_in hw.1 hw.2]; exact this
   have hsz : y.size = y.dset.size := rfl
-  refine ⟨idx (r - 1), w (r - 1), ?_, hidx _, hw, hend, p.orb (Or.inl rfl), ?_, ?_⟩
+  refine ⟨r - 1, idx (r - 1), w (r - 1), by omega, p, hidx _, hw, hend, ?_⟩
+  intro heq
+  have h1 : idx (r - 1) = b := congrArg Prod.fst heq
+  have h2 : w (r - 1) = e := congrArg Prod.snd heq
+  have hodd : (r - 1) % 2 = 1 := by
+    simp only [idx] at h1
+    by_cases hn2 : (r - 1) % 2 = 0
+    · rw [if_pos hn2] at h1; exact absurd h1 hab
+    · omega
+  exact Dihedral.walk_end_ne hA hB hr1 hper hmin hz hodd h2
+
+/-- **`opposite`**: from the mirror end `(b, e)` of the (a,b)-orbit of `e`, starting with index
+    `a`, `opposite` returns the other mirror end `(k', e')` of that orbit — a different one — and
+    from there it returns `(b, e)` -/
+theorem opposite_spec {y : DSymData} (hv : ValidSet y.dset) (rep : Rep) {a b : Nat}
+    (ha : a ≤ y.dim) (hb : b ≤ y.dim) (hab : a ≠ b) {e : Nat} (he : 1 ≤ e ∧ e ≤ y.size)
+    (hloop : y.dset.opU b e = e) :
+    ∃ k' e', opposite ⟨y, rep⟩ a b e = .ok (k', e') ∧ (k' = a ∨ k' = b) ∧ (1 ≤ e' ∧ e' ≤ y.size) ∧
+      y.dset.opU k' e' = e' ∧ Orb2 y.dset a b e e' ∧ (k', e') ≠ (b, e) ∧
+      opposite ⟨y, rep⟩ (a + b - k') k' e' = .ok (b, e) := by
+  obtain ⟨n, k', e', hn, p, hk', he', hend, hne⟩ := chain_path hv ha hb hab he hloop
+  refine ⟨k', e', ?_, hk', he', hend, p.orb (Or.inl rfl), hne, ?_⟩
   · unfold opposite
     exact oppositeLoop_of_path hv rep ha hb p (Or.inl rfl) he hend _ (by
-      show r - 1 + 1 ≤ 2 * y.size + 2
+      show n + 1 ≤ 2 * y.size + 2
       omega)
-  · intro heq
-    have h1 : idx (r - 1) = b := congrArg Prod.fst heq
-    have h2 : w (r - 1) = e := congrArg Prod.snd heq
-    have hodd : (r - 1) % 2 = 1 := by
-      simp only [idx] at h1
-      by_cases hn2 : (r - 1) % 2 = 0
-      · rw [if_pos hn2] at h1; exact absurd h1 hab
-      · omega
-    exact Dihedral.walk_end_ne hA hB hr1 hper hmin hz hodd h2
   · have prev := p.reverse hv ha hb (Or.inl rfl) he
     have e1 : a + b - a = b := by omega
     rw [e1] at prev
     unfold opposite
-    have hk'' : idx (r - 1) ≤ y.dim := by rcases hidx (r - 1) with h | h <;> rw [h] <;> assumption
-    have hother : a + b - idx (r - 1) = a ∨ a + b - idx (r - 1) = b := by
-      rcases hidx (r - 1) with h | h <;> rw [h]
+    have hk'' : k' ≤ y.dim := by rcases hk' with h | h <;> rw [h] <;> assumption
+    have hother : a + b - k' = a ∨ a + b - k' = b := by
+      rcases hk' with h | h <;> rw [h]
       · right; omega
       · left; omega
-    have hoth_le : a + b - idx (r - 1) ≤ y.dim := by rcases hother with h | h <;> rw [h] <;> assumption
-    have hsum : a + b - idx (r - 1) + idx (r - 1) = a + b := by
-      rcases hidx (r - 1) with h | h <;> rw [h] <;> omega
-    have prev' : Path y.dset (a + b - idx (r - 1) + idx (r - 1)) (r - 1) (a + b - idx (r - 1)) (w (r - 1)) b e := by
+    have hoth_le : a + b - k' ≤ y.dim := by rcases hother with h | h <;> rw [h] <;> assumption
+    have hsum : a + b - k' + k' = a + b := by
+      rcases hk' with h | h <;> rw [h] <;> omega
+    have prev' : Path y.dset (a + b - k' + k') n (a + b - k') e' b e := by
       rw [hsum]; exact prev
-    exact oppositeLoop_of_path hv rep hoth_le hk'' prev' (Or.inl rfl) hw hloop _ (by
-      show r - 1 + 1 ≤ 2 * y.size + 2
+    exact oppositeLoop_of_path hv rep hoth_le hk'' prev' (Or.inl rfl) he' hloop _ (by
+      show n + 1 ≤ 2 * y.size + 2
       omega)
 
 end DSymVerif.D2
